@@ -3,6 +3,7 @@
 One harness (hws) and one model driver (wsdrv) serve the three properties: the same case streams are
 generated for each, the direct oracles are split by prefix (c12- / c13- / c15-) and the correspondence
 compares the fields each property is about."""
+from . import srcgen
 import os
 
 from . import core
@@ -65,12 +66,15 @@ PROPS = {
                     "evaluated on the observed tables per compressed message); text payloads are restricted to valid UTF-8 (invalid text is refused: "
                     "c12_invalid_text_not_delivered) and ReadLimit is 0 in c12_roundtrip; the theorem is over the driver's appWrite sequence; the "
                     "upgrade hand-off (101 response and first frames in one read) is covered by the correspondence and an oracle, not by a theorem; the "
-                    "little-endian word load/xor/store = bytewise xor step of maskXOR is trusted and checked by the c12-mask oracle (all lengths 0..300)",
+                    "little-endian word load/xor/store = bytewise xor step of maskXOR is trusted and checked by the c12-mask oracle (all lengths 0..300); "
+                    "opening handshake (Model/WsHandshake.lean: Upgrader.commCheck/commResponse, Dialer request/validation, newConn): structured "
+                    "requests/responses with canonical header keys (HTTP syntax is C06-C09), SHA-1 is a parameter observed per case, the origin hook's "
+                    "verdict is an input; token lists are read by the model's scanner and compared with an independent reading by the oracle",
             "technique": "Lean 4 proof (induction over frame and segment lists) + differential correspondence"},
         "lean": ["NbioVerif.Properties.C12"], "drivers": ["wsdrv"], "harness": ["hws"],
         "facts": [ws_facts],
-        "runs": [_run(["werr", "wire", "recv", "rerr", "back", "berr", "err", "codec"])],
-        "oracles": ["c12-"],  # c12-roundtrip, c12-mask, c12-trunc
+        "runs": [_run(["werr", "wire", "recv", "rerr", "back", "berr", "err", "codec", "rx", "wx", "proto", "resp", "status", "req", "srx", "swx", "crx", "cwx", "serr"])],
+        "oracles": ["c12-"],  # c12-roundtrip, c12-mask, c12-trunc, c12-handshake
         "rule": "case = message program on two back-to-back conns (role, compression level, frame limit, message limit, segmentation style) or a "
                 "frame stream fed to Parse, or a maskXOR sweep; distinct by hash of (configuration class, per-op outcome classes); non-trivial iff "
                 "something was delivered, buffered or refused",
@@ -88,8 +92,8 @@ PROPS = {
                     "c13_closeCode_rfc); inflation is a parameter of the specification tied to the endpoint's decompressor by the hypothesis InflAgrees; "
                     "masking direction: known finding (c13_mask_counterexample, c13_partial, c13_masked)",
             "technique": "Lean 4 proof (decoder agreement + induction over the frame list, decide over regenerated tables) + differential correspondence"},
-        "lean": ["NbioVerif.Properties.C13"], "drivers": ["wsdrv"], "harness": ["hws"],
-        "facts": [ws_facts],
+        "lean": ["NbioVerif.Properties.C13", srcgen.BRIDGE_WS], "drivers": ["wsdrv"], "harness": ["hws"],
+        "facts": [ws_facts, srcgen.src_facts],
         "runs": [_run(["err", "rfc", "len", "may", "exp", "rerr", "berr", "recv", "back"])],
         "oracles": ["c13-"],
         "rule": "same streams as C12; distinct by hash of (role, compression, limits, per-Parse outcome, RFC verdict); non-trivial iff a frame was "
@@ -111,8 +115,8 @@ PROPS = {
                     "no-progress Read is outside the reader contract (stuck) and a spinning implementation is caught by the hang oracle; "
                     "read-limit clause proved as partial (known finding ws-readlimit-first-read)",
             "technique": "Lean 4 proof (invariant by induction over the frame loop and the segment list) + differential correspondence"},
-        "lean": ["NbioVerif.Properties.C15"], "drivers": ["wsdrv"], "harness": ["hws"],
-        "facts": [ws_facts],
+        "lean": ["NbioVerif.Properties.C15", srcgen.BRIDGE_WS], "drivers": ["wsdrv"], "harness": ["hws"],
+        "facts": [ws_facts, srcgen.src_facts],
         "runs": [_run(["err", "cache", "msglen", "werr", "rerr", "berr", "rcache", "rmsglen"])],
         "oracles": ["c15-"],
         "rule": "same streams as C12; non-trivial iff bytes were retained across calls, a limit was configured and approached, or a message was refused",
